@@ -275,6 +275,8 @@ struct TextGen {
 			std::string t = c.coin(30) ? exact_text(bits) : midpoint_text(bits);
 			// optional perturbation of the last digit (just above / just below the boundary)
 			int pert = (int)c.pickn(3);
+			if (pert && t.find('.') == std::string::npos)
+				t += ".0"; // perturb a fraction digit, never the integer part ("0" + "1" would give a leading zero)
 			if (pert && !t.empty())
 			{
 				char &last = t[t.size() - 1];
